@@ -1,6 +1,7 @@
 ---------------------------- MODULE BinImageTrace ----------------------------
 (* TV form of C16.  A trace is what was done to real BinaryImage objects and what they answered:    *)
 (*   Tree(nodes)            a whole tree built with add_image            } post-projection of the   *)
+(*   Config(cfg, place)     a whole tree built by load_from_config       }                          *)
 (*   New / Add / Append / SetSize / Join / UpdateOffsets                 } real objects: len(), absolute_address of every image *)
 (*   Validate(n, res)       validate() of image n: "ok" / "error"                                   *)
 (*   Export(n, ex, d)       export() of image n: the bytes                                          *)
@@ -28,6 +29,9 @@ TTree == /\ Is("Tree") /\ forest = <<>> /\ Acyclic(E.nodes)
                          [NewNode(k, E.nodes[k].off, E.nodes[k].size, E.nodes[k].al, E.nodes[k].data, E.nodes[k].pat) EXCEPT !.par = E.nodes[k].par]]
          /\ InDomain(forest') /\ act' = [a |-> "Tree"]
          /\ PostMatches(forest') /\ UNCHANGED file /\ Adv
+\* a whole tree built by load_from_config from a merge configuration: E.place = the offsets the real region images have; they must be
+\* places the configuration text allows, and the real tree (lengths, absolute addresses of all images) must be the tree of the spec
+TConfig == Is("Config") /\ Config(E.cfg, E.place) /\ PostMatches(forest') /\ UNCHANGED file /\ Adv
 TNew == Is("New") /\ E.n = Len(forest) + 1 /\ New(E.off, E.size, E.al, E.data, E.pat) /\ PostMatches(forest') /\ UNCHANGED file /\ Adv
 TAdd == Is("Add") /\ Add(E.p, E.c) /\ PostMatches(forest') /\ UNCHANGED file /\ Adv
 TAppend == Is("Append") /\ AppendImg(E.p, E.c) /\ PostMatches(forest') /\ UNCHANGED file /\ Adv
@@ -79,7 +83,7 @@ TLoad ==
         /\ LoadHolds(SegsMem(E.segs, 1, file.base), file.lo, file.hi)
         /\ file.start.k = "addr" => E.exec = file.start
   /\ UNCHANGED <<vars, file>> /\ Adv
-TNext == TTree \/ TNew \/ TAdd \/ TAppend \/ TSetSize \/ TJoin \/ TUpdateOffsets \/ TValidate \/ TExport \/ TFile \/ TRawFile \/ TLoad
+TNext == TTree \/ TConfig \/ TNew \/ TAdd \/ TAppend \/ TSetSize \/ TJoin \/ TUpdateOffsets \/ TValidate \/ TExport \/ TFile \/ TRawFile \/ TLoad
 Constr == IF TLCGet(tid) < l THEN TLCSet(tid, l) ELSE TRUE
 Post == /\ PrintT(<<"DONE", Len(Traces)>>)
         /\ \A i \in 1..Len(Traces) :
